@@ -1017,4 +1017,297 @@ def toMaskedV (e : EntryV) (reg : RegV) (endianness : Endianness) : MaskedV :=
     bitMask := e.bitMask, sign := e.sign, endianness, unit := e.unit
     representation := e.representation, pSelected := e.pSelected }
 
+/-! ## Literal renderings (decimal, hexadecimal) -/
+
+/-- decimal / lower-case / upper-case hexadecimal digit -/
+def digitChar (upper : Bool) (d : Nat) : Char :=
+  if d < 10 then Char.ofNat (48 + d) else Char.ofNat ((if upper then 55 else 87) + d)
+
+/-- digits of `n` in the given radix (most significant first, no leading zeros, `0` ↦ "0") -/
+def natDigits (radix : Nat) (upper : Bool) (n : Nat) : List Char :=
+  if h : n < radix ∨ radix < 2 then [digitChar upper n]
+  else natDigits radix upper (n / radix) ++ [digitChar upper (n % radix)]
+termination_by n
+decreasing_by
+  have : 2 ≤ radix := by omega
+  have : radix ≤ n := by omega
+  exact Nat.div_lt_self (by omega) (by omega)
+
+/-- decimal rendering of an integer -/
+def decInt (n : Int) : Str :=
+  if n < 0 then '-' :: natDigits 10 false n.natAbs else natDigits 10 false n.natAbs
+
+/-- `0x…` / `0X…` rendering of a natural number -/
+def hexNat (upperPrefix upperDigits : Bool) (n : Nat) : Str :=
+  '0' :: (if upperPrefix then 'X' else 'x') :: natDigits 16 upperDigits n
+
+/-! ## Float, FloatReg -/
+
+structure FloatM (F : Type) [FloatLit F] where
+  attr : AttrM
+  elem : ElemM
+  streamable : Option BoolLit
+  value : ValueM (FltLit F)
+  min : Option (IR (FltLit F))
+  max : Option (IR (FltLit F))
+  inc : Option (IR (FltLit F))
+  unit : Option Str
+  representation : Option FloatRepr
+  displayNotation : Option DisplayNotation
+  displayPrecision : Option IntLit
+
+def FloatM.children (m : FloatM F) : List Elem :=
+  flat (m.elem.segs [] ++ [.opt cs!"Streamable" (m.streamable.map fun b => tb b.text)] ++
+    m.value.segs FltLit.text ++
+    [ .opt2 cs!"Min" cs!"pMin" (m.min.map (irBody FltLit.text)),
+      .opt2 cs!"Max" cs!"pMax" (m.max.map (irBody FltLit.text)),
+      .opt2 cs!"Inc" cs!"pInc" (m.inc.map (irBody FltLit.text)),
+      .opt cs!"Unit" (m.unit.map tb),
+      .opt cs!"Representation" (m.representation.map fun r => tb r.text),
+      .opt cs!"DisplayNotation" (m.displayNotation.map fun r => tb r.text),
+      .opt cs!"DisplayPrecision" (m.displayPrecision.map fun l => tb l.text) ])
+def FloatM.render (m : FloatM F) : Elem := .node cs!"Float" m.attr.render m.children
+
+/-- defaults: not streamable, `Min`/`Max` = `f64::MIN`/`f64::MAX` (stored where the element
+would have been), no increment, `PureNumber`, `Automatic`, precision 6 -/
+def specFloat (m : FloatM F) (st : St F) : FloatNode F × St F :=
+  let a := specAttr m.attr st
+  let e := specElem m.elem [] a.2
+  let v := valueS (fun l => .float l.val) irFloatIdS m.value e.2
+  let mn : ImmOrP Nat × St F := match m.min with
+    | some x => irFloatIdS x v.2
+    | none => (.imm (storeS (.float FloatLit.f64Min) v.2).1, (storeS (.float FloatLit.f64Min) v.2).2)
+  let mx : ImmOrP Nat × St F := match m.max with
+    | some x => irFloatIdS x mn.2
+    | none => (.imm (storeS (.float FloatLit.f64Max) mn.2).1, (storeS (.float FloatLit.f64Max) mn.2).2)
+  let ic := optS irFloatS m.inc mx.2
+  ({ attr := a.1, elem := e.1, streamable := (m.streamable.map BoolLit.val).getD false,
+     valueKind := v.1, min := mn.1, max := mx.1, inc := ic.1, unit := m.unit,
+     representation := m.representation.getD .pureNumber,
+     displayNotation := m.displayNotation.getD .automatic,
+     displayPrecision := (m.displayPrecision.map IntLit.val).getD 6 }, ic.2)
+
+structure FloatRegM where
+  attr : AttrM
+  reg : RegM
+  endianness : Option Endianness
+  unit : Option Str
+  representation : Option FloatRepr
+  displayNotation : Option DisplayNotation
+  displayPrecision : Option IntLit
+
+def FloatRegM.children (m : FloatRegM) : List Elem :=
+  flat (m.reg.segs ++
+    [ .opt cs!"Endianess" (m.endianness.map fun x => tb x.text),
+      .opt cs!"Unit" (m.unit.map tb),
+      .opt cs!"Representation" (m.representation.map fun r => tb r.text),
+      .opt cs!"DisplayNotation" (m.displayNotation.map fun r => tb r.text),
+      .opt cs!"DisplayPrecision" (m.displayPrecision.map fun l => tb l.text) ])
+def FloatRegM.render (m : FloatRegM) : Elem := .node cs!"FloatReg" m.attr.render m.children
+
+def specFloatReg (m : FloatRegM) (st : St F) : FloatRegNode × St F :=
+  let a := specAttr m.attr st
+  let r := specReg m.reg a.2
+  ({ attr := a.1, reg := r.1, endianness := m.endianness.getD .le, unit := m.unit,
+     representation := m.representation.getD .pureNumber,
+     displayNotation := m.displayNotation.getD .automatic,
+     displayPrecision := (m.displayPrecision.map IntLit.val).getD 6 },
+   invalS r.1.pInvalidators a.1.id r.2)
+
+/-! ## String, Port -/
+
+/-- `Value` (any text, stored) | `pValue` -/
+inductive StringValueM where
+  | imm (s : Str)
+  | ref (n : Str)
+
+def StringValueM.body : StringValueM → Bool × Body
+  | .imm s => (false, tb s)
+  | .ref n => (true, tb n)
+
+structure StringM where
+  attr : AttrM
+  elem : ElemM
+  streamable : Option BoolLit
+  value : StringValueM
+
+def StringM.children (m : StringM) : List Elem :=
+  flat (m.elem.segs [] ++
+    [ .opt cs!"Streamable" (m.streamable.map fun b => tb b.text),
+      .one2 cs!"Value" cs!"pValue" m.value.body ])
+def StringM.render (m : StringM) : Elem := .node cs!"String" m.attr.render m.children
+
+def specString (m : StringM) (st : St F) : StringNode × St F :=
+  let a := specAttr m.attr st
+  let e := specElem m.elem [] a.2
+  let v : ImmOrP Nat × St F := match m.value with
+    | .imm s => (.imm (storeS (.str s) e.2).1, (storeS (.str s) e.2).2)
+    | .ref n => (.pnode (internS n e.2).1, (internS n e.2).2)
+  ({ attr := a.1, elem := e.1, streamable := (m.streamable.map BoolLit.val).getD false,
+     value := v.1 }, v.2)
+
+/-- `ChunkID` (bare hexadecimal) | `pChunkID` -/
+inductive ChunkM where
+  | imm (h : HexLit)
+  | ref (n : Str)
+
+def ChunkM.body : ChunkM → Bool × Body
+  | .imm h => (false, tb h.text)
+  | .ref n => (true, tb n)
+
+structure PortM where
+  attr : AttrM
+  elem : ElemM
+  chunkId : Option ChunkM
+  swapEndianness : Option BoolLit
+  cacheChunkData : Option BoolLit
+
+def PortM.children (m : PortM) : List Elem :=
+  flat (m.elem.segs [] ++
+    [ .opt2 cs!"ChunkID" cs!"pChunkID" (m.chunkId.map ChunkM.body),
+      .opt cs!"SwapEndianess" (m.swapEndianness.map fun b => tb b.text),
+      .opt cs!"CacheChunkData" (m.cacheChunkData.map fun b => tb b.text) ])
+def PortM.render (m : PortM) : Elem := .node cs!"Port" m.attr.render m.children
+
+def chunkS : ChunkM → St F → ImmOrP Nat × St F
+  | .imm h, st => (.imm h.val, st)
+  | .ref n, st => (.pnode (internS n st).1, (internS n st).2)
+
+def specPort (m : PortM) (st : St F) : PortNode × St F :=
+  let a := specAttr m.attr st
+  let e := specElem m.elem [] a.2
+  let c := optS chunkS m.chunkId e.2
+  ({ attr := a.1, elem := e.1, chunkId := c.1,
+     swapEndianness := (m.swapEndianness.map BoolLit.val).getD false,
+     cacheChunkData := (m.cacheChunkData.map BoolLit.val).getD false }, c.2)
+
+/-! ## SwissKnife, Converter, IntConverter -/
+
+structure SwissKnifeM (F : Type) [FloatLit F] where
+  attr : AttrM
+  elem : ElemM
+  streamable : Option BoolLit
+  pVariables : List (Str × Str)
+  constants : List (Str × FltLit F)
+  expressions : List (Str × FormulaText F)
+  formula : FormulaText F
+  unit : Option Str
+  representation : Option FloatRepr
+  displayNotation : Option DisplayNotation
+  displayPrecision : Option IntLit
+
+def SwissKnifeM.children (m : SwissKnifeM F) : List Elem :=
+  flat (m.elem.segs [] ++
+    [ .opt cs!"Streamable" (m.streamable.map fun b => tb b.text),
+      .many cs!"pVariable" (m.pVariables.map fun x => ntb x.1 x.2),
+      .many cs!"Constant" (m.constants.map fun x => ntb x.1 x.2.text),
+      .many cs!"Expression" (m.expressions.map fun x => ntb x.1 x.2.text),
+      .one cs!"Formula" (tb m.formula.text),
+      .opt cs!"Unit" (m.unit.map tb),
+      .opt cs!"Representation" (m.representation.map fun r => tb r.text),
+      .opt cs!"DisplayNotation" (m.displayNotation.map fun r => tb r.text),
+      .opt cs!"DisplayPrecision" (m.displayPrecision.map fun l => tb l.text) ])
+def SwissKnifeM.render (m : SwissKnifeM F) : Elem := .node cs!"SwissKnife" m.attr.render m.children
+
+def specSwissKnife (m : SwissKnifeM F) (st : St F) : SwissKnifeNode F × St F :=
+  let a := specAttr m.attr st
+  let e := specElem m.elem [] a.2
+  let v := listS pVarS m.pVariables e.2
+  ({ attr := a.1, elem := e.1, streamable := (m.streamable.map BoolLit.val).getD false,
+     pVariables := v.1, constants := m.constants.map fun x => ⟨x.1, x.2.val⟩,
+     expressions := m.expressions.map fun x => ⟨x.1, x.2.text⟩, formula := m.formula.text,
+     unit := m.unit, representation := m.representation.getD .pureNumber,
+     displayNotation := m.displayNotation.getD .automatic,
+     displayPrecision := (m.displayPrecision.map IntLit.val).getD 6 }, v.2)
+
+structure ConverterM (F : Type) [FloatLit F] where
+  attr : AttrM
+  elem : ElemM
+  streamable : Option BoolLit
+  pVariables : List (Str × Str)
+  constants : List (Str × FltLit F)
+  expressions : List (Str × FormulaText F)
+  formulaTo : FormulaText F
+  formulaFrom : FormulaText F
+  pValue : Str
+  unit : Option Str
+  representation : Option FloatRepr
+  displayNotation : Option DisplayNotation
+  displayPrecision : Option IntLit
+  slope : Option Slope
+  isLinear : Option BoolLit
+
+def ConverterM.children (m : ConverterM F) : List Elem :=
+  flat (m.elem.segs [] ++
+    [ .opt cs!"Streamable" (m.streamable.map fun b => tb b.text),
+      .many cs!"pVariable" (m.pVariables.map fun x => ntb x.1 x.2),
+      .many cs!"Constant" (m.constants.map fun x => ntb x.1 x.2.text),
+      .many cs!"Expression" (m.expressions.map fun x => ntb x.1 x.2.text),
+      .one cs!"FormulaTo" (tb m.formulaTo.text),
+      .one cs!"FormulaFrom" (tb m.formulaFrom.text),
+      .one cs!"pValue" (tb m.pValue),
+      .opt cs!"Unit" (m.unit.map tb),
+      .opt cs!"Representation" (m.representation.map fun r => tb r.text),
+      .opt cs!"DisplayNotation" (m.displayNotation.map fun r => tb r.text),
+      .opt cs!"DisplayPrecision" (m.displayPrecision.map fun l => tb l.text),
+      .opt cs!"Slope" (m.slope.map fun r => tb r.text),
+      .opt cs!"IsLinear" (m.isLinear.map fun b => tb b.text) ])
+def ConverterM.render (m : ConverterM F) : Elem := .node cs!"Converter" m.attr.render m.children
+
+/-- defaults: `PureNumber`, `Automatic` notation, precision 6, `Automatic` slope, not linear -/
+def specConverter (m : ConverterM F) (st : St F) : ConverterNode F × St F :=
+  let a := specAttr m.attr st
+  let e := specElem m.elem [] a.2
+  let v := listS pVarS m.pVariables e.2
+  let p := internS m.pValue v.2
+  ({ attr := a.1, elem := e.1, streamable := (m.streamable.map BoolLit.val).getD false,
+     pVariables := v.1, constants := m.constants.map fun x => ⟨x.1, x.2.val⟩,
+     expressions := m.expressions.map fun x => ⟨x.1, x.2.text⟩,
+     formulaTo := m.formulaTo.text, formulaFrom := m.formulaFrom.text, pValue := p.1,
+     unit := m.unit, representation := m.representation.getD .pureNumber,
+     displayNotation := m.displayNotation.getD .automatic,
+     displayPrecision := (m.displayPrecision.map IntLit.val).getD 6,
+     slope := m.slope.getD .automatic, isLinear := (m.isLinear.map BoolLit.val).getD false }, p.2)
+
+structure IntConverterM (F : Type) [FloatLit F] where
+  attr : AttrM
+  elem : ElemM
+  streamable : Option BoolLit
+  pVariables : List (Str × Str)
+  constants : List (Str × IntLit)
+  expressions : List (Str × FormulaText F)
+  formulaTo : FormulaText F
+  formulaFrom : FormulaText F
+  pValue : Str
+  unit : Option Str
+  representation : Option IntRepr
+  slope : Option Slope
+
+def IntConverterM.children (m : IntConverterM F) : List Elem :=
+  flat (m.elem.segs [] ++
+    [ .opt cs!"Streamable" (m.streamable.map fun b => tb b.text),
+      .many cs!"pVariable" (m.pVariables.map fun x => ntb x.1 x.2),
+      .many cs!"Constant" (m.constants.map fun x => ntb x.1 x.2.text),
+      .many cs!"Expression" (m.expressions.map fun x => ntb x.1 x.2.text),
+      .one cs!"FormulaTo" (tb m.formulaTo.text),
+      .one cs!"FormulaFrom" (tb m.formulaFrom.text),
+      .one cs!"pValue" (tb m.pValue),
+      .opt cs!"Unit" (m.unit.map tb),
+      .opt cs!"Representation" (m.representation.map fun r => tb r.text),
+      .opt cs!"Slope" (m.slope.map fun r => tb r.text) ])
+def IntConverterM.render (m : IntConverterM F) : Elem :=
+  .node cs!"IntConverter" m.attr.render m.children
+
+def specIntConverter (m : IntConverterM F) (st : St F) : IntConverterNode × St F :=
+  let a := specAttr m.attr st
+  let e := specElem m.elem [] a.2
+  let v := listS pVarS m.pVariables e.2
+  let p := internS m.pValue v.2
+  ({ attr := a.1, elem := e.1, streamable := (m.streamable.map BoolLit.val).getD false,
+     pVariables := v.1, constants := m.constants.map fun x => ⟨x.1, x.2.val⟩,
+     expressions := m.expressions.map fun x => ⟨x.1, x.2.text⟩,
+     formulaTo := m.formulaTo.text, formulaFrom := m.formulaFrom.text, pValue := p.1,
+     unit := m.unit, representation := m.representation.getD .pureNumber,
+     slope := m.slope.getD .automatic }, p.2)
+
 end CamVerif.XmlParse
